@@ -23,7 +23,7 @@ EXPLANATION = (
     "history record carries combination, the sort_by value, viability and message)."
 )
 NOT_DECIDED = "agreement of summary contents with transform outputs on data"
-FLOORS = {"R-summary-scope": 3, "R-single-table": 4, "R-history-complete": 6, "R-history-fields": 2}
+FLOORS = {"R-summary-scope": 3, "R-single-table": 4, "R-history-complete": 6, "R-history-fields": 2, "R-readonly-queries": 30}
 
 
 def _emits(node, sink="summaries"):
@@ -202,6 +202,9 @@ def rule_viable_is_fitted(ctx):
 
 
 def check(ctx):
+    from . import c07
+
+    c07.rule_readonly_queries(ctx)
     rule_viable_is_fitted(ctx)
     rule_summary_scope(ctx)
     rule_single_table(ctx)
